@@ -11,12 +11,13 @@ ASSUMPTIONS = ["'generic values' clause: position is compared with the exact rat
                "structural-rank characterisation (Hall) is not proved in Lean in this revision (open obligation symbolic_first_deficient)"]
 
 
-def singular_matrix(rng, n, cplx=False):
+def singular_matrix(rng, n, cplx=False, force_kind=None):
     """-> (Mat, kind)"""
-    kind = rng.choice(["zero_col_stored", "zero_row_stored", "empty_col", "empty_row", "dup_cols", "dep_col_int", "rank_def_block", "two_cols_one_row"])
+    kind = force_kind or rng.choice(["zero_col_stored", "zero_row_stored", "empty_col", "empty_row", "dup_cols", "dep_col_int", "rank_def_block", "two_cols_one_row",
+                       "multi_zero_cols", "multi_zero_cols", "multi_zero_cols"])
     base_kind = rng.choice(["random", "band", "arrow", "chain", "dense", "forest", "tridiag"])
     pat, _ = G.pattern(rng, n, base_kind)
-    generic = kind in ("zero_col_stored", "zero_row_stored", "empty_col", "empty_row", "rank_def_block", "two_cols_one_row")
+    generic = kind in ("zero_col_stored", "zero_row_stored", "empty_col", "empty_row", "rank_def_block", "two_cols_one_row", "multi_zero_cols")
     gv = G.values(rng, "float" if generic else "int")
     vals = {}
     for (i, j) in pat:
@@ -25,6 +26,12 @@ def singular_matrix(rng, n, cplx=False):
     if kind == "zero_col_stored":
         for (i, j) in list(vals):
             if j == c: vals[(i, j)] = 0.0
+    elif kind == "multi_zero_cols":
+        # several stored-zero columns in different parts of the elimination forest: every worker sees its own singular columns,
+        # the reported position must still be the global first one
+        for cc in rng.sample(range(n), min(n, rng.randint(2, 5))):
+            for (i, j) in list(vals):
+                if j == cc: vals[(i, j)] = 0.0
     elif kind == "zero_row_stored":
         for (i, j) in list(vals):
             if i == c: vals[(i, j)] = 0.0
@@ -94,6 +101,56 @@ def first_deficient(F, perm_c):
     return None
 
 
+P61 = (1 << 61) - 1
+
+
+def first_zero_column(F, perm_c):
+    """1-based position in F*Pc of the first column all of whose stored values are exactly zero (None if none)"""
+    best = None
+    for j in range(F.n):
+        vals = [F.vals[k] for k in range(F.colptr[j], F.colptr[j + 1])]
+        if all((v == 0 if not F.cplx else v == (0.0, 0.0)) for v in vals):
+            pos = perm_c[j] + 1
+            best = pos if best is None else min(best, pos)
+    return best
+
+
+def first_dependent_column(F, perm_c):
+    """1-based index of the first column of F*Pc that is linearly dependent on the previous ones — computed exactly up to a
+    ~n^2/2^61 chance of a false dependency (Gaussian elimination modulo the Mersenne prime 2^61-1 of the dyadic values
+    scaled to integers; real precisions only)."""
+    from fractions import Fraction
+    n = F.n
+    inv = [0] * n
+    for i, j in enumerate(perm_c): inv[j] = i
+    cols = []
+    for j in range(n):
+        c = inv[j]; col = {}
+        for k in range(F.colptr[c], F.colptr[c + 1]):
+            fr = Fraction(F.vals[k])
+            if fr != 0:
+                col[F.rowind[k]] = fr.numerator % P61 * pow(fr.denominator, P61 - 2, P61) % P61
+        cols.append(col)
+    basis = {}    # pivot row -> reduced column (dict)
+    for j in range(n):
+        v = dict(cols[j])
+        for piv in sorted(basis):     # rows in increasing order: each basis vector has zeros in earlier pivot rows
+            x = v.get(piv, 0)
+            if x:
+                b = basis[piv]
+                f = x * pow(b[piv], P61 - 2, P61) % P61
+                for r, bv in b.items():
+                    nv = (v.get(r, 0) - f * bv) % P61
+                    if nv: v[r] = nv
+                    else: v.pop(r, None)
+        if not v:
+            return j + 1
+        piv = min(v)
+        # keep the triangular shape: eliminate the new pivot row from nothing (later columns are reduced in pivot order)
+        basis[piv] = v
+    return None
+
+
 def run(ctx):
     ncases = 500 if ctx.quick() else 8000
     nmax = 20 if ctx.quick() else 40
@@ -105,13 +162,24 @@ def run(ctx):
     for t in range(ncases):
         prec = rng.choice("dsdz" if t % 5 else "c")
         n = rng.choice([1, 2, 3, 3, 4, 5, 6] + [rng.randint(7, nmax)] * 4)
-        M, kind = singular_matrix(rng, n, cplx=prec in "cz")
+        multi = (t % 3 == 0)
+        if multi:
+            n = rng.randint(14, nmax + 30)
+        M, kind = singular_matrix(rng, n, cplx=prec in "cz", force_kind="multi_zero_cols" if multi else None)
         nrhs = rng.choice([1, 2])
         cplx = prec in "cz"
         rhs = [[((float(rng.randint(-3, 3)), 0.0) if cplx else float(rng.randint(-3, 3))) for _ in range(n)] for _ in range(nrhs)]
         cfg = {"t": t, "prec": prec, "n": n, "kind": kind, "vmode": "int", "nrhs": nrhs, "ld": n, "stype": rng.choice(["NC", "NC", "NR"]),
                "colperm": rng.randint(0, 3), "nprocs": rng.choice([1, 2, 4]), "panel": rng.choice([1, 2, 4, 8, 20]), "relax": rng.choice([1, 2, 4, 8]),
                "maxsuper": rng.choice([8, 200]), "rowblk": 200, "colblk": 100, "driver": rng.choice(["gssv", "gssvx"]), "u": rng.choice([1.0, 0.5, 0.0]), "perturb": 0}
+        if multi:
+            cfg.update({"panel": rng.choice([1, 2, 3]), "relax": rng.choice([1, 2, 4, 8, 16]), "stype": rng.choice(["NC", "NC", "NC", "NR"])})
+            if cfg["maxsuper"] < cfg["relax"]: cfg["maxsuper"] = cfg["relax"]
+            # "independent of thread count and schedule": the same matrix under several thread counts and delay-injection seeds
+            for (P, pert) in [(1, 0), (2, 0), (2, 1), (3, 2), (4, 0), (4, 3), (8, 1), (2, 4), (3, 5)]:
+                c2 = dict(cfg); c2.update({"nprocs": P, "perturb": pert, "group": t})
+                cases.append((c2, M, rhs))
+            continue
         if cfg["maxsuper"] < cfg["relax"]: cfg["maxsuper"] = cfg["relax"]
         cases.append((cfg, M, rhs))
     from concurrent.futures import ThreadPoolExecutor
@@ -122,7 +190,7 @@ def run(ctx):
     with ThreadPoolExecutor(C.NPROC) as ex:
         recs = list(ex.map(one, cases))
     from collections import Counter
-    hist = Counter(); crash_kinds = Counter()
+    hist = Counter(); crash_kinds = Counter(); groups = {}
     for r in recs:
         cfg = r["cfg"]; hist["kind=" + cfg["kind"]] += 1; hist["status=" + r["status"]] += 1
         if r["status"] != "ok":
@@ -148,17 +216,40 @@ def run(ctx):
                     ctx.violation("X-modified", "p?gssvx returned info=%d>0 but wrote X" % info, S.replay_blob(r))
                 if res.get("equed") == 0 and res.get("B.same") != 1:
                     ctx.violation("B-modified", "p?gssvx returned info=%d>0, equed=none, but modified B" % info, S.replay_blob(r))
-        if getattr(r["M"], "generic", False) and G.sprank(r["M"]) == n:   # stored pattern structurally nonsingular (else: finding F2's input class)
+        if "group" in cfg:
+            groups.setdefault(cfg["group"], []).append(r)
+        if getattr(r["M"], "generic", False) and G.sprank(r["M"]) == n:
+            # stored pattern structurally nonsingular (else: finding F2's input class).  An exactly zero column stays exactly zero under
+            # any elimination order, so the report must come no later than the first one; and no column can be reported before the
+            # first column that is linearly dependent on its predecessors.  When both coincide the position is forced.
             F = S.transpose(r["M"]) if cfg["stype"] == "NR" else r["M"]
-            kstar = first_deficient(F, res["perm_c"])
-            hist["generic_position_checked"] += 1
-            if kstar is not None and info != kstar:
-                ctx.violation("info-position-generic", "generic values: info=%d but the first k with structural rank(first k columns of A*Pc) < k is %d (%s)" % (info, kstar, cfg["kind"]), S.replay_blob(r))
+            pz = first_zero_column(F, res["perm_c"])
+            hist["position_checked"] += 1
+            if pz is not None and not (0 < info <= pz):
+                ctx.violation("info-position:late", "info=%d but column %d of A*Pc is exactly zero: the first singular column was not reported (%s, P=%d)" % (info, pz, cfg["kind"], cfg["nprocs"]), S.replay_blob(r))
+            elif 0 < info <= n and not r["M"].cplx and hist["dependency_checked"] < (80 if ctx.quick() else 2000):
+                hist["dependency_checked"] += 1
+                kd = first_dependent_column(F, res["perm_c"])
+                if kd is None or info < kd:
+                    ctx.violation("info-position:early", "info=%d reported before the first linearly dependent column %s of A*Pc (%s)" % (info, kd, cfg["kind"]), S.replay_blob(r))
+                elif pz is not None and kd == pz:
+                    hist["position_forced_and_equal"] += 1
         for k in ("A.ptr.same", "A.ind.same"):
             if res.get(k) != 1:
                 ctx.violation("A-structure-modified", "A's structure arrays changed", S.replay_blob(r))
         if res["threads"][0] != res["threads"][1]:
             ctx.violation("threads-left", "thread count %s -> %s" % res["threads"], S.replay_blob(r))
+    # the same matrix under different thread counts / delay schedules must report the same position
+    for g, rs in groups.items():
+        oks = [r for r in rs if r["status"] == "ok"]
+        infos = sorted(set(r["info"] for r in oks))
+        hist["schedule_groups"] += 1
+        if len(infos) > 1:
+            base = [r for r in oks if r["cfg"]["nprocs"] == 1]
+            ref = base[0]["info"] if base else infos[0]
+            bad = [r for r in oks if r["info"] != ref][0]
+            ctx.violation("info-schedule-dependent", "same matrix, info=%s for different thread counts/schedules (P=1 gives %s; P=%d perturb=%d gives %d; %s)" % (
+                infos, ref, bad["cfg"]["nprocs"], bad["cfg"]["perturb"], bad["info"], bad["cfg"]["kind"]), S.replay_blob(bad))
     # position of the first singular column vs the exact rational model
     st, dis = FC.compare(ctx, [r for r in recs if r["status"] == "ok"], nmax=nmax)
     singular_pos = 0
